@@ -259,6 +259,10 @@ func (d *Decoder) Write(p []byte) (n int, err error) {
 	}
 
 	for len(d.buf) > 0 {
+		// RFC 7541, sec 4.2: a header block may begin with more than one
+		// dynamic table size update (the smallest size, then the final one),
+		// so a size update does not end the "beginning of the block".
+		sizeUpdate := d.buf[0]&224 == 32
 		err = d.parseHeaderFieldRepr()
 		if err == errNeedMore {
 			// Extra paranoia, making sure saveBuf won't
@@ -273,7 +277,9 @@ func (d *Decoder) Write(p []byte) (n int, err error) {
 			d.saveBuf.Write(d.buf)
 			return len(p), nil
 		}
-		d.firstField = false
+		if !sizeUpdate {
+			d.firstField = false
+		}
 		if err != nil {
 			break
 		}
